@@ -14,7 +14,9 @@ RULE = ("every linear programme solved by drawn three-round runs (country and wo
         "re-formulated independently (sparse matrix, HiGHS) from the captured supplies and the reported first-stage optimum is compared "
         "with the reference optimum in both directions; in addition each captured human-round instance is perturbed (per-food supply "
         "factors in [0,3], retail waste, intake caps redrawn, charge scaled down) and solved by both the model's Optimizer and the "
-        "reference.  Non-trivial = instance with optimum > 0 in which the reference solution has at least one month strictly above the "
+        "reference; every feed-round instance is also solved with nothing pinned for people and ONE month made the bottleneck (months 0, 1, 2, "
+        "7, 46: each link of the never-rises chain binds in some instance); the column-extreme rows of the input table are always run under "
+        "three waste / stock bundles.  Non-trivial = instance with optimum > 0 in which the reference solution has at least one month strictly above the "
         "worst month (human rounds) / optimum > 0 (feed round); distinct by hash of the instance inputs.")
 ASSUMPTIONS = ["objective tolerance 2e-5 relative (CBC gapRel 1e-5; probe: agreement <= 1.5e-7)",
                "the reference encodes the same problem statement as the model (different formulation and solver): a shared misreading would go unnoticed",
